@@ -540,7 +540,7 @@ func classifyC13(sc *Scenario, h *History, st *Stats) string {
 func init() {
 	register(&Property{
 		ID: "C13", Level: "exploration",
-		Rule:     "LMTP server; 1-4 accepted recipients over two addresses (duplicates) with rejected RCPTs interleaved; per-recipient backend that sets a drawn subset of statuses in a drawn order before, after and after-a-park relative to consuming the message, returns nil / SMTPError / plain error, panics at one of three points, fails early after k octets, or breaks the contract (too many statuses, unknown recipient: judged for no-deadlock only); plain backend; DATA and BDAT in 1-4 chunks (LAST possibly empty); lock-step or pipelined. Expected final replies come from the occurrence rule (k-th status for an address belongs to its k-th occurrence, else the return value). Non-trivial: >= 2 recipients or any explicit status, panic or early failure; distinct by (recipient list, transfer, chunking, backend flavour, status calls, return kind, panic, early-failure point).",
+		Rule:     "LMTP server; 1-4 accepted recipients over two addresses (duplicates) with rejected RCPTs interleaved; per-recipient backend that sets a drawn subset of statuses in a drawn order before, after and after-a-park relative to consuming the message, returns nil / SMTPError / plain error, panics at one of three points, fails early after k octets, or breaks the contract (too many statuses, unknown recipient: judged for no-deadlock only); plain backend; DATA and BDAT in 1-4 chunks (LAST possibly empty); lock-step or pipelined. Expected final replies come from the occurrence rule (k-th status for an address belongs to its k-th occurrence, else the return value). Non-trivial: >= 2 recipients or any explicit status, panic or early failure; distinct by (recipient list, transfer, chunking, backend flavour, status calls, return kind, panic, early-failure point). An earlier transaction on the same connection with other recipients (systematic: none, RSET, first BDAT refused for size, malformed BDAT then RSET, completed with DATA, completed with BDAT).",
 		Gen:      genC13,
 		Check:    checkC13,
 		Classify: classifyC13,
